@@ -84,6 +84,9 @@ def op_strategy(kind, none_p=True, bulk_empty=True, heavy=True, only=None):
         (3, "double_edge_swap", st.tuples(st.just("double_edge_swap"), nm, nm, ex, ex).map(list)),
         (1, "double_edge_swap", st.tuples(st.just("double_edge_swap"), nm, st.just(["same"]), ex, ex).map(list)),  # one node named twice
         (1, "double_edge_swap", st.tuples(st.just("double_edge_swap"), nm, nm, ex, st.just(["same-edge"])).map(list)),  # one edge named twice
+        # a half-valid swap: the first node is a member of the first (existing) edge, the second an arbitrary label that is mostly
+        # not in the second (existing) edge - the call must fail without having started the swap
+        (2, "double_edge_swap", st.tuples(st.just("double_edge_swap"), st.tuples(st.just("@"), st.integers(0, 5)).map(list), n, nets.eid_existing, nets.eid_existing).map(list)),
         (2, "random_edge_shuffle", st.tuples(st.just("random_edge_shuffle"), ex, ex, st.integers(0, 10**6)).map(list)),
         (1, "random_edge_shuffle", st.tuples(st.just("random_edge_shuffle"), st.none(), st.none(), st.integers(0, 10**6)).map(list)),
         (4, "add_node_to_edge", st.tuples(st.just("add_node_to_edge"), e_or_none, n_or_none).map(list)),
